@@ -279,8 +279,8 @@ class StoreWorld:
         live = sorted(self.model)
         free = [n for n in self.names if n not in self.model]
         op = rng.choices(["new", "same", "change", "uidchange", "invalid", "cond-current", "cond-stale", "cond-absent", "uidconflict", "delete", "delete-missing",
-                          "delete-cond-current", "delete-cond-stale", "reopen", "revert", "uidchange-samelen", "samelen-change-then-stale-cond"],
-                         [10, 3, 6, 3, 3, 3, 3, 1, 4, 5, 1, 2, 2, 1, 2, 3, 3])[0]
+                          "delete-cond-current", "delete-cond-stale", "reopen", "revert", "uidchange-samelen", "samelen-change-then-stale-cond", "cond-delete-of-item-without-file"],
+                         [10, 3, 6, 3, 3, 3, 3, 1, 4, 5, 1, 2, 2, 1, 2, 3, 3, 2 if self.backend == "tree" else 0])[0]
         holders = self.holders()
         if op == "new" and free and len(live) < 7:
             n = rng.choice(free)
@@ -362,6 +362,22 @@ class StoreWorld:
                 self.do_import("cond-stale-after-samelen-change", n, b3, m.uid, tok3, replace_etag=before, expect={"C03": "InvalidETag"})
             else:
                 self.do_delete("delete-cond-stale-after-samelen-change", n, etag=before, expect={"C03": "InvalidETag"})
+        elif op == "cond-delete-of-item-without-file" and live and self.backend == "tree":
+            # the state an interrupted delete leaves on a tree store: working file gone, index entry (what is listed and
+            # served) still there.  The validator of such an item is still its blob id: a stale one must be refused.
+            n = rng.choice(live)
+            m = self.model[n]
+            fp = os.path.join(self.path, n)
+            if not os.path.isfile(fp):
+                return False
+            os.unlink(fp)
+            self.res.count("store_items_left_without_working_file")
+            stale = [e for (_, e) in m.history if e != m.etag]
+            wrong = rng.choice(stale) if stale and rng.random() < 0.6 else rng.choice(["0" * 40, (self.model[rng.choice(live)].etag or "0" * 40)])
+            if wrong != m.etag:
+                self.do_delete("delete-cond-stale-without-file", n, etag=wrong, expect={"C03": "InvalidETag"})
+            if rng.random() < 0.5 and n in self.model:
+                self.do_delete("delete-cond-current-without-file", n, etag=m.etag, expect={"C03": "ok"})
         elif op == "invalid":
             n = rng.choice([x for x in self.names if not x.endswith(".txt")])
             if n.endswith(".ics"):
